@@ -748,6 +748,8 @@ def run_model(ctx, histories):
 def run(ctx):
     ctx.extra["printer_state_statement"] = state_statement()
     run_corpus(ctx)
+    from corr import C12_partial
+    C12_partial.run(ctx)                      # custom scalars with PARTIAL number-literal acceptance (deterministic class)
     run_long_descriptions(ctx)
     run_roundtrip(ctx)
     hist = []
@@ -763,6 +765,9 @@ def run(ctx):
 
 def replay(ctx, data):
     inp = data.get("input", {})
+    if inp.get("part") == "C12_partial":
+        from corr import C12_partial
+        return C12_partial.replay(ctx, data)
     if "history" in inp:
         live = rebuild_cases(inp["schemas"])
         schemas = [(None, src, s, False) for src, s in zip(inp["schemas"], live)]
